@@ -19,13 +19,13 @@ SPEC = {
              "codes, as M  CHG/M  RAD lines, stale codes superseded by property lines, CHG-only / RAD-only lines; entries packed 1..8 per line over several lines; isotopes in M  ISO; "
              "D/T symbols together with M  ISO lines naming other atoms; unrelated property lines (M  STY/SAL/SMT/SBL/ALS/RGP/LIN/SUB/UNS/RBC, A, V, G) and atom lists in between; "
              "explicit zero entries; CRLF. distinct_nontrivial = distinct V2000 texts containing at least one property line or charge code"),
-    "assumptions": ["mass-difference field (dd) kept 0: the property names M  ISO and D/T as the isotope encodings", "coordinates representable in F10.4", "S  SKP skip-lines not generated"],
+    "assumptions": ["mass-difference field (dd) kept 0: the property names M  ISO and D/T as the isotope encodings", "coordinates representable in F10.4"],
     "monitors_required": ["c08_v2000_vs_model", "c08_v2000_vs_v3000", "c08_string_compare"],
-    "required_obs": {"quick": ["entries_per_line/8", "entries_per_line/3", "encoding/codes", "encoding/lines", "encoding/stale", "dt_with_foreign_iso", "unrelated", "atom_list_lines",
-                               "cov_three_digit_indices", "cov_adjacent_fixed_width_fields", "cov_isotopologue_history", "cov_corpus_as_v2000", "cov_identical_atom_lines_in_one_file", "cov_rad_only_lines_with_codes", "cov_chg_only_lines_with_radical_codes"]},
+    "required_obs": {"quick": ["entries_per_line/8", "entries_per_line/3", "encoding/codes", "encoding/lines", "encoding/stale", "dt_with_foreign_iso", "unrelated", "two_line_records_with_property_like_text", "atom_list_lines",
+                               "cov_three_digit_indices", "cov_990_to_999_atoms", "cov_adjacent_fixed_width_fields", "cov_isotopologue_history", "cov_corpus_as_v2000", "cov_identical_atom_lines_in_one_file", "cov_rad_only_lines_with_codes", "cov_chg_only_lines_with_radical_codes"]},
     "watchdog_s": {"quick": 900, "thorough": 5400},
 }
-PLAN = {"quick": {"cases": 5000, "big": 40}, "thorough": {"cases": 60000, "big": 400}}
+PLAN = {"quick": {"cases": 5000, "big": 40, "huge": 4}, "thorough": {"cases": 60000, "big": 400, "huge": 48}}
 
 
 def pipeline(g):
@@ -34,8 +34,12 @@ def pipeline(g):
     return s.serialize_molecule(c.canonicalize_molecule(g))
 
 
-def gen_mol(rng, big=False):
-    if big:
+def gen_mol(rng, big=False, huge=False):
+    if huge:
+        mol = G.random_organic(rng, 990, 999)  # the format's limit: counts line fields filled to three digits
+        if len(mol.bonds) > 999:
+            mol.bonds = mol.bonds[:999]
+    elif big:
         mol = G.random_organic(rng, 100, 300)
     else:
         r = rng.random()
@@ -84,11 +88,12 @@ def _run_case(ctx, case):
         ctx.skip("not representable in V2000")
         return
     enc = case.get("encoding") or rng.choice(["codes", "lines", "lines", "stale", "agree", "chg_only", "rad_only"])
-    v2 = V2Style(encoding="lines", per_line=rng.choice([1, 2, 3, 4, 5, 6, 7, 8, 8, 8]), dt_symbols=rng.random() < 0.7,
+    v2 = V2Style(encoding="lines", per_line=rng.choice([0, 0, 1, 2, 3, 4, 5, 6, 7, 8, 8, 8]), dt_symbols=rng.random() < 0.7,
                  unrelated=rng.choice([0, 0, 0.3, 0.6]), atom_lists=rng.choice([0, 0, 0, 1, 3]), eol=rng.choice(["\n", "\n", "\r\n"]),
                  explicit_zero=rng.choice([0, 0, 0.3]), shuffle_entries=rng.random() < 0.5, interleave=rng.random() < 0.5,
                  after_end=rng.choice(["", "", "$$$$"]), final_eol=rng.random() < 0.5, stereo_fields=rng.random() < 0.3,
-                 header=rng.choice([None, ["", "", ""], ["M  CHG  1   1   1", "M  ISO", "M  END"]]))
+                 header=rng.choice([None, ["", "", ""], ["M  CHG  1   1   1", "M  ISO", "M  END"]]),
+                 two_line_records=rng.choice([0, 0, 0.3]))
     work = mol
     if enc in ("codes", "lines", "stale", "agree"):
         v2.encoding = enc
@@ -183,6 +188,10 @@ def run(ctx):
     for k in range(common.share(ctx, plan["big"])):
         mol = gen_mol(rng, big=True)
         run_case(ctx, {"mol": mol.to_json(), "vseed": f"{ctx.seed}/{ctx.shard}/b{k}"})
+    for k in range(common.share(ctx, plan["huge"])):
+        mol = gen_mol(rng, huge=True)
+        run_case(ctx, {"mol": mol.to_json(), "vseed": f"{ctx.seed}/{ctx.shard}/H{k}"})
+        ctx.count("cov_990_to_999_atoms")
 
 
     for path, mol in common.corpus_mols(ctx):
